@@ -389,6 +389,22 @@ def rule_single_exit(model, rep):
                       witness="scrypt.using(block_size=1, default_rounds=8).using(default_rounds=16) is accepted although n >= 2**(16*r): the early return skipped the parameter-combination check; the derived hasher cannot hash")
     if n < 15:
         rep.undecided(R, "<instance-count>", f"only {n} using() methods with a return found, expected at least 15")
+    # the cross-option validation itself is unconditional: whichever of the options a call sets (or none -- a chain inherits the rest),
+    # the combination the derived class ends up with is checked
+    SC = "passlib.handlers.scrypt"
+    fn = model.func(SC, "scrypt.using")
+    unit = model.unit(SC)
+    vals = [c for c in walk_no_nested(fn) if isinstance(c, ast.Call) and ast.unparse(c.func).endswith("validate")]
+    if len(vals) != 1:
+        rep.violation(R, site(SC, "scrypt.using") + " combination check", f"{len(vals)} calls of _scrypt.validate", "the derived n / r / p combination is validated once",
+                      witness="scrypt.using(block_size=1, rounds=8).using(rounds=20) is accepted; the derived hasher cannot hash")
+    else:
+        cond = unit.enclosing(vals[0], ast.If)
+        args = [ast.unparse(a) for a in vals[0].args]
+        ok = cond is None and args == ["1 << subcls.default_rounds", "subcls.block_size", "subcls.parallelism"]
+        rep.check(ok, R, site(SC, "scrypt.using") + " combination check", f"_scrypt.validate({', '.join(args)})" + (f" under `if {ast.unparse(cond.test)}`" if cond is not None else ""),
+                  "the n / r / p combination of the derived class is validated on every call of using(), whatever options it sets",
+                  witness="scrypt.using(block_size=1, rounds=8).using(rounds=20) and scrypt.using(parallelism=2**27+1) are accepted: the check only runs when block_size is given")
 
 
 def rule_gh(model, rep):
@@ -501,6 +517,7 @@ def run(model, rep):
     rule_zero_max(model, rep)
     rule_falsy_option(model, rep)
     rule_single_exit(model, rep)
+    rule_type7_salt_range(model, rep)
     from . import c05 as _c05
     from .shared import Renamed as _Renamed
     _c05.rule_a(model, _Renamed(rep, {"C05.a": "C09.k-truncate-error-honoured"}, "C09.x-"))
@@ -513,3 +530,29 @@ def run(model, rep):
     rep.minimum("C09.i-zero-is-a-value", 8)
     # boolean options pass through as_bool() before using() stores them: 0 is a value there too
     shared.rule_as_bool(model, rep, "C09.i-zero-is-a-value")
+
+
+def rule_type7_salt_range(model, rep):
+    """cisco_type7's salt is an integer offset into the 53-character key: the accepted range, the clamp of the relaxed mode and the declared
+    maximum are one and the same bound (0..52)"""
+    R = "C09.l-offset-range"
+    H7 = "passlib.handlers.cisco"
+    fn = model.func(H7, "cisco_type7._norm_salt")
+    unit = model.unit(H7)
+    s = site(H7, "cisco_type7._norm_salt")
+    accept = [n for n in walk_no_nested(fn) if isinstance(n, ast.If) and isinstance(n.test, ast.Compare) and len(n.test.ops) == 2 and n.body and isinstance(n.body[-1], ast.Return)
+              and ast.unparse(n.body[-1].value) == "salt"]
+    if len(accept) != 1:
+        rep.undecided(R, s, "the range test `0 <= salt <= <max>` was not found")
+        return
+    t = accept[0].test
+    lo, mid, hi = ast.unparse(t.left), ast.unparse(t.comparators[0]), ast.unparse(t.comparators[1])
+    ok = lo in ("0", "cls.min_salt_value") and mid == "salt" and hi == "cls.max_salt_value" and all(isinstance(o, ast.LtE) for o in t.ops)
+    rep.check(ok, R, s, ast.unparse(t), "a salt is accepted exactly when 0 <= salt <= cls.max_salt_value",
+              witness="cisco_type7.using(salt=53) is accepted and produces '53...' strings outside the format's 0..52 range; relaxed=True neither clamps nor warns")
+    clamp = [ast.unparse(r.value) for r in walk_no_nested(fn) if isinstance(r, ast.Return) and r.value is not None and ast.unparse(r.value) != "salt"]
+    rep.check(clamp == ["0 if salt < 0 else cls.max_salt_value"], R, s + " clamp", "; ".join(clamp), "relaxed mode clamps to the same bounds")
+    mx = model.fold(unit, ast.Attribute(value=ast.Name(id="cisco_type7", ctx=ast.Load()), attr="max_salt_value", ctx=ast.Load()))
+    key = model.fold(unit, ast.Attribute(value=ast.Name(id="cisco_type7", ctx=ast.Load()), attr="_key", ctx=ast.Load()))
+    rep.check(isinstance(mx, int) and isinstance(key, str) and mx == len(key) - 1, R, site(H7, "cisco_type7.max_salt_value"), f"max_salt_value={mx!r}, len(_key)={len(key) if isinstance(key, str) else '?'}",
+              "the largest offset is the last index of the key table")
